@@ -2045,6 +2045,18 @@ impl StorageEngine {
         let shard = self.get_shard(db, &key)?;
         let mut shard_guard = shard.write().unwrap();
         
+        // Setting nothing changes nothing, whatever the offset: the reply is the current length
+        // (0 for a missing key, which is not created)
+        if value.is_empty() {
+            return match shard_guard.data.get(&key) {
+                Some(stored_value) => match &stored_value.value {
+                    Value::String(bytes) => Ok(bytes.len()),
+                    _ => Err(StorageError::WrongType.into()),
+                },
+                None => Ok(0),
+            };
+        }
+        
         // Redis limits strings to 512 MB; this also keeps offset + len from overflowing
         const MAX_STRING_LEN: usize = 512 * 1024 * 1024;
         if offset > MAX_STRING_LEN || value.len() > MAX_STRING_LEN - offset {
@@ -2071,11 +2083,6 @@ impl StorageEngine {
                 _ => return Err(StorageError::WrongType.into()),
             }
         } else {
-            // Setting nothing on a missing key creates nothing
-            if value.is_empty() {
-                return Ok(0);
-            }
-            
             // Create new string with padding
             let mut new_string = vec![0; offset + value.len()];
             new_string[offset..].copy_from_slice(&value);
